@@ -2,6 +2,7 @@
   C15 — Title comes from the page, is never invented, and is not repeated in content.
 -/
 import Distill.Model.Title
+import Distill.Props.FiltersProps
 import Distill.Gen.Funcs
 namespace Distill.C15
 open Distill
